@@ -1,5 +1,7 @@
 import OxiVerif.Lemmas.C01Lexer
 import OxiVerif.Lemmas.C01Graph
+import OxiVerif.Lemmas.C01Xrs
+import OxiVerif.Lemmas.C01A85
 /-!
 # C01 — reading any byte sequence never crashes, hangs or exhausts memory
 
@@ -51,6 +53,20 @@ theorem C01_witness_a85 :
 theorem C01_witness_a85_add :
     a85Decode [115, 56, 87, 45, 34, 126, 62] MAX_DECOMPRESSED_SIZE = .panic .add := by decide
 
+/- FULL: ∀ data max, (a85Decode data max).isPanic = false.  FALSE (witnesses above). -/
+
+/-- partial, whole decoder (`decode_ascii85_with_limit`: white-space filter, `<~` prefix, `z`, groups,
+`~>`, `u`-padded tail, output limit): it never panics on data that contains none of the bytes
+`s`, `t`, `u` — then every group value fits `u32`; any other bytes, any length, any limit -/
+theorem C01_a85_decode_partial (data : Bytes) (max : Nat) (h : ∀ b ∈ data, b < 115 ∨ 117 < b) :
+    (a85Decode data max).isPanic = false :=
+  a85Decode_np data max h
+
+example : (a85Decode [60, 126, 56, 55, 99, 85, 82, 68, 93, 106, 55, 66, 69, 98, 111, 56, 48, 126, 62]
+    MAX_DECOMPRESSED_SIZE).fine = true := by decide
+example : ∀ b ∈ [60, 126, 56, 55, 99, 85, 82, 68, 93, 106, 55, 66, 69, 98, 111, 56, 48, 126, 62],
+    b < 115 ∨ 117 < b := by decide
+
 /-! ## PNG predictor sizing (filters.rs:1830-1868) -/
 
 /-- exact characterisation: `predSizing` panics iff the UNCHECKED product
@@ -76,6 +92,35 @@ theorem C01_pred_sizing_panic_iff (columns bpc colors : Int) (len : Nat) :
     rw [isPanic_bind]; left; rw [mulU_isPanic, hU]; exact h
 
 example : 2 ^ 64 ≤ asU USIZE 8 * asU USIZE (-1) := by decide
+
+/-- the WHOLE predictor (`apply_png_predictor_advanced`: sizing, then the row loop with its five
+filter types, `result[i - bpp]` look-backs and previous-row slices) panics iff that one product
+overflows: for every data content, every filter-type byte, every /Columns /Colors /BitsPerComponent
+the indexing and slicing of the row loop stay inside their buffers -/
+theorem C01_png_predict_panic_iff (data : Bytes) (columns bpc colors : Int) :
+    (pngPredict data columns bpc colors).isPanic = true ↔ 2 ^ 64 ≤ asU USIZE bpc * asU USIZE colors := by
+  rw [← C01_pred_sizing_panic_iff columns bpc colors data.length]
+  unfold pngPredict
+  rw [isPanic_bind]
+  constructor
+  · rintro (h | ⟨s, hs, h⟩)
+    · exact h
+    · have hf := predRows_fine data s (predSizing_ok columns bpc colors data.length s hs)
+        (s.numRows + 1) 0 [] (by simp)
+      rw [fine_not_panic _ hf] at h
+      cases h
+  · intro h; exact Or.inl h
+
+/-- partial (the statement that is true of the code once line 1848 uses `checked_mul`): no panic when
+the product fits -/
+theorem C01_png_predict_partial (data : Bytes) (columns bpc colors : Int)
+    (h : asU USIZE bpc * asU USIZE colors < 2 ^ 64) :
+    (pngPredict data columns bpc colors).isPanic = false := by
+  cases hp : (pngPredict data columns bpc colors).isPanic with
+  | false => rfl
+  | true => rw [C01_png_predict_panic_iff] at hp; omega
+
+example : pngPredict [1, 10, 20, 2, 1, 1] 2 8 1 = .ok [10, 30, 11, 31] := by decide
 
 /-- witness: `/Predictor 12 /Colors -1` (defaults elsewhere) on two bytes -/
 theorem C01_witness_pred : applyPredictor [0, 1] 12 none none (some (-1)) = .panic .mul := by decide
@@ -288,6 +333,28 @@ theorem C01_witness_xref_boundary :
 theorem C01_witness_xref_add :
     entryLoop 4294967295 2 [[49, 55, 32, 48, 32, 110], [49, 55, 32, 48, 32, 110]] 0 [] = .panic .add := by
   decide
+
+/-- xref streams: the number of entries produced is bounded by the number of DATA BYTES, whatever
+`/Index`, `/Size` and `/W` declare (a declared count of 2^32-1 allocates nothing by itself) -/
+theorem C01_xrs_entries_bounded (w : List Int) (index : Option (List Int)) (size : Option Int)
+    (data : Bytes) (es : List XEntry) (h : xrsEntries w index size data = .ok es) :
+    es.length ≤ data.length := by
+  unfold xrsEntries at h
+  rw [bind_eq_ok] at h
+  obtain ⟨widths, _, h⟩ := h
+  rw [bind_eq_ok] at h
+  obtain ⟨idx, _, h⟩ := h
+  rw [bind_eq_ok] at h
+  obtain ⟨entrySize, _, h⟩ := h
+  by_cases h0 : (entrySize == 0) = true
+  · rw [if_pos h0] at h; cases h
+  · rw [if_neg h0] at h
+    have hpos : 0 < entrySize := by
+      have : entrySize ≠ 0 := by simpa using h0
+      omega
+    exact xrsOuter_bound data widths entrySize hpos idx 0 [] es h (by simp) (Nat.zero_le _)
+
+example : (xrsEntries [1, 1, 1] (some [0, 4294967295]) none [1, 7, 0, 1, 9, 0]).isPanic = false := by decide
 
 /-- xref stream `/Index [4294967295 2]`: `first_obj + i` in `u32` (xref_stream.rs:183) -/
 theorem C01_witness_xrs_add :
